@@ -17,4 +17,6 @@ def run(tier):
     # clauses added for the wave-2 seeds (rules/wave2.py; DESIGN 12a)
     wave2_nio.no_raw_array_rule(run, f, "C17-NO-RAW-ARRAY")
     wave2_nio.index_advances_rule(run, f, "C17-INDEX-ADVANCES")
+    # clauses added for the wave-2 seeds (rules/wave2.py; DESIGN 12a)
+    wave2_nio.no_reissue_while_head_wrong_rule(run, f, "C17-HEAD-UNUSED-AFTER-SUCCESS")
     return run.finish()
